@@ -32,7 +32,7 @@ def main():
     ap.add_argument("--demo-name", default="verif_seed_demo_test.go")
     ap.add_argument("--pkgs", default="")
     ap.add_argument("--name")
-    ap.add_argument("--keep", action="store_true")
+    ap.add_argument("--keep", action="store_true", default=True)  # stored by default (a forgotten --keep lost a whole wave once)
     ap.add_argument("--thorough", action="store_true")
     ap.add_argument("--skip-tests", action="store_true")
     ap.add_argument("--checks", default="")
